@@ -403,7 +403,8 @@ func (e *Engine) Express(interest *ndn.EncodedInterest, callback ndn.ExpressCall
 	}
 	lastComp := finalName[len(finalName)-1]
 	if lastComp.Typ == enc.TypeImplicitSha256DigestComponent {
-		impSha256 = lastComp.Val
+		// The entry outlives this call: keep a copy, not the caller's memory behind the name.
+		impSha256 = append(make([]byte, 0, len(lastComp.Val)), lastComp.Val...)
 		nodeName = finalName[:len(finalName)-1]
 	}
 
